@@ -35,11 +35,12 @@ def pla(name, k, epsfix=None, epsmax=2, ymax=12, xmax=255, maximality=True, tier
                           'fit of every accepted point + maximality (exact feasibility oracle)' if maximality else 'fit of every accepted point (no maximality oracle)'))
 
 
-def mkseg(name, nk, eps, chunks=1, xmax=254, tiers=Q, timeout=900, mem_gb=14):
+def mkseg(name, nk, eps, chunks=1, xmax=254, tiers=Q, timeout=900, mem_gb=14, range_end=None):
     d = dict(KT['uint8_t']); d.update(NK=nk, EPSFIX=eps, CHUNKS=chunks, XMAX=xmax, YMAXCHK=nk, MAXSEG=nk + 2, VERIF_VEC_CAP=nk + 4, VERIF_VECVEC_CAP=max(chunks, 2))
+    if range_end is not None: d.update(RANGE_END=range_end)
     return dict(name=name, unit='pla.cpp', harness='h_mkseg.c', defs=d, narrow=16, timeout=timeout, tiers=tiers, mem_gb=mem_gb,
                 bounds='sorted arrays of exactly %d uint8_t keys in 0..%d (duplicates allowed), epsilon=%d, %s'
-                       % (nk, xmax, eps, 'sequential driver' if chunks <= 1 else 'chunked driver with %d chunks (hook H1: real chunk loop run sequentially)' % chunks))
+                       % (nk, xmax, eps, ('the non-final chunk [0,%d) through make_segmentation(n, start, end, ...)' % range_end) if range_end is not None else 'sequential driver' if chunks <= 1 else 'chunked driver with %d chunks (hook H1: real chunk loop run sequentially)' % chunks))
 
 
 def mapped(name, kt, n, eps=1, epsrec=1, ord_hi=None, tiers=Q, timeout=900):
@@ -131,7 +132,7 @@ JOBS['C03'] = [pla('pla_fit_k3_e0', 3, epsfix=0, maximality=False),
                pla('pla_fit_k3_e1_x63', 3, epsfix=1, xmax=63, ymax=6, maximality=False), pla('pla_fit_k3_e2_x31', 3, epsfix=2, xmax=31, ymax=6, maximality=False),
                pla('pla_fit_k3_e1', 3, epsfix=1, maximality=False, tiers=T, timeout=3000), pla('pla_fit_k3_e2', 3, epsfix=2, maximality=False, tiers=T, timeout=3000),
                pla('pla_fit_k4_e1_x31', 4, epsfix=1, xmax=31, ymax=6, maximality=False, tiers=T, timeout=3000)]
-JOBS['C03'] += [mkseg('mkseg_n2_e0', 2, 0), mkseg('mkseg_n2_e1', 2, 1), mkseg('mkseg_n3_e1_c2', 3, 1, chunks=2, timeout=1800), mkseg('mkseg_n3_e1', 3, 1, tiers=T, timeout=3000), mkseg('mkseg_n4_e1_c2', 4, 1, chunks=2, tiers=T, timeout=3000, mem_gb=40), mkseg('mkseg_n4_e0_c3', 4, 0, chunks=3, tiers=T, timeout=3000)]
+JOBS['C03'] += [mkseg('mkseg_n2_e0', 2, 0), mkseg('mkseg_n2_e1', 2, 1), mkseg('mkseg_n3_e1_chunk02', 3, 1, range_end=2), mkseg('mkseg_n4_e1_chunk03', 4, 1, range_end=3, tiers=T, timeout=3000), mkseg('mkseg_n3_e1', 3, 1, tiers=T, timeout=3000), ]
 JOBS['C04'] = [pla('pla_max_k3_e%d_x15' % e, 3, epsfix=e, xmax=15, ymax=6) for e in (0, 1)] + [pla('pla_max_k3_e2_x7', 3, epsfix=2, xmax=7, ymax=12)] + \
               [pla('pla_max_k3_e1_x63', 3, epsfix=1, xmax=63, ymax=6, tiers=T, timeout=3000)]
 JOBS['C14'] = [md('md_contains_n1', 0, 1, 3), md('md_contains_n2', 0, 2, 3)]
@@ -146,7 +147,7 @@ JOBS['C11'] = [mapped('mapped_u8_n2', 'uint8_t', 2), mapped('mapped_i8_n2', 'int
 
 JOBS['C09'] = [bucketing('bucket_n2_t3', 2, 3), bucketing('bucket_n2_t4', 2, 4), bucketing('bucket_n3_t3', 3, 3), bucketing('bucket_n3_t4_dyn', 3, 4, topbits=0, tiers=T, timeout=3000), bucketing('bucket_n4_t6', 4, 6, tiers=T, timeout=4000)]
 EF_PROBE = [sdslidx('ef_u16_n1', 'eliasfano.cpp', 'u_eliasfano', 'uint16_t', 1, mem_gb=45, timeout=3600), sdslidx('ef_u16_n2', 'eliasfano.cpp', 'u_eliasfano', 'uint16_t', 2, mem_gb=45, timeout=3600, tiers=T)]
-JOBS['C02'] = JOBS['C01'] + [j_ for j_ in JOBS['C03'] if j_['name'] == 'mkseg_n3_e1_c2']
+JOBS['C02'] = JOBS['C01'] + [j_ for j_ in JOBS['C03'] if j_['name'] == 'mkseg_n3_e1_chunk02']
 JOBS['C07'] = [e2e('e2e_u8_n3_e1_r1', 'uint8_t', 3, 1, 1), e2e('e2e_i8_n2_e1_r1', 'int8_t', 2, 1, 1), e2e('e2e_u8_n4_e1_r1', 'uint8_t', 4, 1, 1, tiers=T, timeout=3000)]
 JOBS['C16'] = [e2e('frame_u8_n2_e1_r1', 'uint8_t', 2, 1, 1, extra=dict(WITH_FRAME=1)), e2e('frame_u8_n3_e1_r0', 'uint8_t', 3, 1, 0, extra=dict(WITH_FRAME=1))]
 JOBS['C20'] = [e2e('reject_u8_n%d' % n, 'uint8_t', n, 1, 1, extra=dict(ALLOW_SENTINEL=1)) for n in (1, 2)] + \
